@@ -239,20 +239,47 @@ def rendezvous_scenarios(chk, tier):
                 chk.nontrivial.add("rdv:%s" % json.dumps(case))
     chk.sample(dict(kind="rendezvous", cases=cases[:5]))
 
+def shared_output_scenario(chk):
+    """two processes whose tasks map to the same output file compete for ONE slot: the loser waits while the file appears.
+    Whatever it then does (run again or skip), the slot must come back: the consumer of both must still get its turn."""
+    for order in ("0.3", "0.05"):
+        inst = dict(name="SHOUT", max=1, bufsize=2,
+                    procs=[zoo.src("s", zoo.items(1)),
+                           dict(name="a", kind="cmd", ins=["in"], outs=["out"], outpaths={"out": "o/shared.txt"}, arg="sleep %s; cat {i:in} > {o:out}; echo A >> {o:out}" % order),
+                           dict(name="b", kind="cmd", ins=["in"], outs=["out"], outpaths={"out": "o/shared.txt"}, arg="sleep 0.3; cat {i:in} > {o:out}; echo B >> {o:out}"),
+                           dict(name="fin", kind="cmd", ins=["x", "y"], outs=["out"], outpaths={"out": "o/fin.txt"}, arg="cat {i:x} {i:y} > {o:out}")],
+                    edges=[zoo.E("s.out", "a.in"), zoo.E("s.out", "b.in"), zoo.E("a.out", "fin.x"), zoo.E("b.out", "fin.y")])
+        for rr in fc.real_runs(inst, [dict(env={}, bufsize=2, timeout=25), dict(env={"VERIF_JITTER": "5"}, bufsize=2, timeout=25)]):
+            chk.evaluations += 1
+            if rr.timeout or rr.deadlock:
+                chk.violation("one slot, two tasks mapping to the same output file: after the first finished the slot never became free again and the "
+                              "downstream task never ran (%s)" % ("Go runtime deadlock report" if rr.deadlock else "timeout"),
+                              dict(instance=inst, stderr=rr.stderr[-600:]))
+            elif rr.rc != 0 or not rr.completed:
+                chk.undecided.append("shared-output scenario failed rc=%s %s" % (rr.rc, rr.stderr[-200:]))
+            else:
+                chk.nontrivial.add("shared-output:" + order)
+
 def oversize_scenarios(chk):
+    cases = []
     for mx, c in ((1, 2), (2, 3), (3, 5)):
-        inst = dict(name="OVR", max=mx, bufsize=2, procs=[zoo.src("s", zoo.items(2)), zoo.cmd("big", ["in"], ["out"], cores=c), zoo.cmd("ok", ["in"], ["out"])],
-                    edges=[zoo.E("s.out", "big.in"), zoo.E("s.out", "ok.in")])
+        cases.append((mx, c, "process with out-ports", dict(name="OVR", max=mx, bufsize=2, procs=[zoo.src("s", zoo.items(2)), zoo.cmd("big", ["in"], ["out"], cores=c), zoo.cmd("ok", ["in"], ["out"])],
+                    edges=[zoo.E("s.out", "big.in"), zoo.E("s.out", "ok.in")])))
+        # the oversize process is the one without out-ports (it becomes the workflow's driver), alone or after a chain
+        cases.append((mx, c, "process without out-ports (driver)", dict(name="OVRLEAF", max=mx, bufsize=2, procs=[zoo.src("s", zoo.items(2)), zoo.cmd("ok", ["in"], ["out"]), zoo.cmd("big", ["x"], [], cores=c)],
+                    edges=[zoo.E("s.out", "ok.in"), zoo.E("ok.out", "big.x")])))
+    cases.append((2, 3, "only process of the workflow", dict(name="OVRSOLO", max=2, bufsize=2, procs=[zoo.cmd("big", [], [], cores=3)], edges=[])))
+    for mx, c, label, inst in cases:
         rr = fc.real_runs(inst, [dict(env={}, bufsize=2, timeout=20)])[0]
         chk.evaluations += 1
         ran_big = [r for r in rr.cmdlog if r["key"].startswith("big:")]
         if rr.timeout or rr.deadlock:
-            chk.violation("process asking for %d cores with maxConcurrentTasks=%d hangs instead of being rejected" % (c, mx), dict(instance=inst))
+            chk.violation("%s asking for %d cores with maxConcurrentTasks=%d hangs instead of being rejected" % (label, c, mx), dict(instance=inst))
         elif rr.rc == 0 or rr.completed or ran_big:
-            chk.violation("process asking for %d cores with maxConcurrentTasks=%d was not rejected (rc=%s, commands of it executed: %d)" % (c, mx, rr.rc, len(ran_big)),
+            chk.violation("%s asking for %d cores with maxConcurrentTasks=%d was not rejected (rc=%s, commands of it executed: %d)" % (label, c, mx, rr.rc, len(ran_big)),
                           dict(instance=inst, cmdlog=rr.cmdlog))
         else:
-            chk.nontrivial.add("oversize:%d/%d" % (c, mx))
+            chk.nontrivial.add("oversize:%d/%d:%s" % (c, mx, label))
 
 @register("C07")
 def check_C07(tier):
@@ -266,5 +293,6 @@ def check_C07(tier):
     gate_scenario(chk)
     rendezvous_scenarios(chk, tier)
     oversize_scenarios(chk)
+    shared_output_scenario(chk)
     real_saturating(chk, tier, {"C07"})
     return chk.finish()
